@@ -15,6 +15,9 @@ type SubmitStep struct {
 	// whose parent is known and at or above the require height), otherwise
 	// AddBlocks is used.
 	Validated bool `json:"validated,omitempty"`
+	// Malleated: for blocks of the batch that have a same-id altered-body copy,
+	// hand over that copy instead of the block itself.
+	Malleated bool `json:"malleated,omitempty"`
 }
 
 // GenSchedule draws a submission schedule over n blocks: mostly sequential
@@ -49,7 +52,7 @@ func GenSchedule(t *rapid.T, n int, maxSteps int) []SubmitStep {
 			batch[0], batch[len(batch)-1] = batch[len(batch)-1], batch[0]
 		}
 		if len(batch) > 0 {
-			steps = append(steps, SubmitStep{Batch: batch, Validated: Chance(t, 30, "validated")})
+			steps = append(steps, SubmitStep{Batch: batch, Validated: Chance(t, 30, "validated"), Malleated: Chance(t, 35, "malleated")})
 		}
 	}
 	// final sweep
@@ -72,7 +75,14 @@ func (t *Tree) ResolveBatch(st SubmitStep, known func(types.BlockID) bool) (node
 			continue
 		}
 		nodes = append(nodes, t.Nodes[i])
-		blocks = append(blocks, t.Nodes[i].Block)
+		if st.Malleated && t.Nodes[i].Malleated != nil {
+			blocks = append(blocks, *t.Nodes[i].Malleated)
+		} else {
+			blocks = append(blocks, t.Nodes[i].Block)
+		}
+	}
+	if st.Malleated {
+		return nodes, blocks, nil, false
 	}
 	if !st.Validated || len(nodes) == 0 {
 		return nodes, blocks, nil, false
@@ -103,4 +113,17 @@ func LCA(a, b *TNode) *TNode {
 		}
 	}
 	return a
+}
+
+// HasMalleated reports whether the step hands over at least one altered-body copy.
+func (t *Tree) HasMalleated(st SubmitStep) bool {
+	if !st.Malleated {
+		return false
+	}
+	for _, i := range st.Batch {
+		if i >= 0 && i < len(t.Nodes) && t.Nodes[i].Malleated != nil {
+			return true
+		}
+	}
+	return false
 }
